@@ -140,9 +140,35 @@ theorem removeWorker_safe {s s' : State} {w : Nat} {reason : String} {f : Bool} 
               have c := lostAssigned_safe _ _ _ _ _ _ _ (fun id hid => b id (hnpA id hid)) hp1
               exact e0.trans (a.trans c)
         · -- multi-node assignment
-          repeat' (split at hp1)
-          all_goals first | cases hp1 | skip
-          all_goals grind [getTask_spec]
+          rename_i tid root started ha
+          split at hp1
+          · cases hp1
+          · rename_i task hg
+            have ht : findTask s.tasks tid = some task := getTask_spec hg
+            have hid : task.id = tid := findTask_some_id ht
+            split at hp1
+            · rename_i ws hs
+              split at hp1
+              · rename_i rootw others
+                split at hp1
+                · split at hp1
+                  · cases hp1
+                  · rename_i s01 hr
+                    have ht01 : findTask s01.tasks task.id = some task := by
+                      rw [resetMnAll_tasks _ _ _ hr, hid]; exact ht
+                    split at hp1
+                    · cases hp1
+                    · rename_i s3 r3 har
+                      cases hp1
+                      have a1 : Safe s01 (s01.setTask { task with state := .waiting 0, inst := task.inst + 1 }) :=
+                        Safe.setState' ht01 (by simp [hs]) (by simp)
+                      have a2 := Safe.addReady' har (findTask_setState_self ht01) rfl
+                      exact ((e0.trans (Safe.resetMnAll hr)).trans a1).trans a2
+                · cases hp1
+                  exact e0.trans (Safe.setState (s := { s with workers := s.workers.filter (·.id ≠ w) }) ht
+                    (by simp [hs]) (by simp))
+              · cases hp1
+            · cases hp1
       split at h
       · cases h
       · rename_i s2 out1 h2
